@@ -87,6 +87,8 @@ type Gen struct {
 	// LeadHashBang: the program starts with inline HTML whose first line begins with "#!"; it is only
 	// text when a real shebang line precedes it, so Render forces the shebang line for such programs.
 	LeadHashBang bool
+	// listInForeach: the list() being drawn is a foreach target
+	listInForeach bool
 	// nestLeafKind selects the leaf of the operator-nest enumeration (opnest.go)
 	nestLeafKind int
 }
